@@ -2,8 +2,29 @@
 
 package main
 
-import "github.com/KevoDB/kevo/pkg/verifhook"
+import (
+	"sync/atomic"
+	"time"
+
+	"github.com/KevoDB/kevo/pkg/verifhook"
+)
 
 const hooksOn = true
 
 func setYield(seed uint64) { verifhook.SetYield(seed) }
+
+// stallRotations makes some log rotations slow: every so often the gate between "old log marked
+// as rotating" and "new log installed" is held for longer than the write path's retry budget
+// (3 attempts, 10 ms apart), so that writes and commits in flight FAIL with "WAL is rotating".
+// What a failed call leaves behind (locks, flags) is then exercised by the calls that follow.
+func stallRotations(stop *atomic.Bool) {
+	go func() {
+		for !stop.Load() {
+			time.Sleep(120 * time.Millisecond)
+			verifhook.Hold("rotate.marked")
+			time.Sleep(70 * time.Millisecond)
+			verifhook.Release("rotate.marked")
+		}
+		verifhook.Release("rotate.marked")
+	}()
+}
